@@ -97,6 +97,7 @@ _C = {
  "greedy_blank_negative": 203,
  "greedy_blank_nonneg": 197,
  "greedy_lens": 93,
+ "greedy_hostile_padding_frames": 120,
  "greedy_lens_with_zero": 185,
  "greedy_logits": 235,
  "greedy_no_lens": 122,
@@ -317,7 +318,11 @@ def _gen_greedy(rng, case, big):
                 for u in range(t, min(T, t + run)):
                     logits[u][n][lab] += 3.0
                 t += run
-    case.update(T=T, N=N, V=V, blank=blank, is_probs=is_probs, lens=lens, logits=logits,
+    # frames past an element's length are "not there": fill them with hostile content (-inf, nan, huge)
+    pad_fill = None
+    if lens is not None and any(l < T for l in lens) and rng.random() < 0.6:
+        pad_fill = rng.choice(["ninf", "nan", "big", "inf"])
+    case.update(T=T, N=N, V=V, blank=blank, is_probs=is_probs, lens=lens, logits=logits, pad_fill=pad_fill,
                 batch_first=rng.random() < 0.5, form=rng.choice(["functional", "module"]))
 
 
@@ -687,6 +692,12 @@ def _exec_greedy(case, mon):
     x = torch.tensor(case["logits"], dtype=torch.float32).view(T, N, V)
     if is_probs and not case.get("raw"):
         x = x.softmax(-1)
+    if case.get("pad_fill") and lens is not None:
+        fill = {"ninf": float("-inf"), "nan": float("nan"), "big": 1e30, "inf": float("inf")}[case["pad_fill"]]
+        x = x.clone()
+        for n in range(N):
+            x[lens[n]:, n] = fill
+        mon.cls("greedy_hostile_padding_frames")
     inp = x.transpose(0, 1).contiguous() if case["batch_first"] else x
     lt = None if lens is None else torch.tensor(lens, dtype=torch.long)
     mon.cls("greedy_blank_negative" if blank < 0 else "greedy_blank_nonneg",
